@@ -124,3 +124,12 @@ class FakeGC:
     @staticmethod
     def get_referents(*a):
         return []
+
+
+def install_fake_pdb():
+    """-D/--post-mortem without a human: the debugger returns at once (the
+    runner then raises EndRun, as it does when the user leaves pdb)."""
+    import types
+    import zope.testrunner.debug as D
+    D.pdb = types.SimpleNamespace(post_mortem=lambda tb=None: None, set_trace=lambda *a, **k: None)
+    D.ipdb = None
